@@ -374,7 +374,8 @@ func readInnerChunks(tx *bolt.Tx, fsID string, off int64) (chunks []chunkEntryWi
 	if err != nil {
 		return nil, fmt.Errorf("metadata bucket of %q not found: %w", fsID, err)
 	}
-	if err := ob.ForEach(func(_, v []byte) error {
+	if err := ob.ForEach(func(k, v []byte) error {
+		innerOffset, _ := binary.Varint(k)
 		nodeid := decodeID(v)
 		b, err := getNodeBucketByID(nodes, nodeid)
 		if err != nil {
@@ -387,7 +388,9 @@ func readInnerChunks(tx *bolt.Tx, fsID string, off int64) (chunks []chunkEntryWi
 				return fmt.Errorf("failed to get chunks: %w", err)
 			}
 			for _, e := range nodeChunks {
-				if e.offset == off {
+				// A file can have several chunks in this stream, each of which has its
+				// own key in this bucket: take only the chunk this key stands for.
+				if e.offset == off && e.innerOffset == innerOffset {
 					chunks = append(chunks, chunkEntryWithID{e, nodeid})
 				}
 			}
